@@ -2,7 +2,7 @@
 from . import daemon
 from .common import finish
 
-SUM = ("evaluations", "distinct", "polls", "restarts", "reboots", "suspends", "trusted_in_sync_phase", "answers_in_sync_phase", "order_checks", "gap_checks", "msg_checks")
+SUM = ("evaluations", "distinct", "polls", "restarts", "reboots", "suspends", "answers_without_a_system_clock_read", "trusted_in_sync_phase", "answers_in_sync_phase", "order_checks", "gap_checks", "msg_checks")
 DICTS = ("answers_by_status", "outcomes_by_kind", "adversarial_instants", "client_errors")
 
 
@@ -28,6 +28,8 @@ def run(ctx):
         inconclusive = "fewer than 30%% of answers in synchronised phases were trusted (%d of %d)" % (agg["trusted_in_sync_phase"], agg["answers_in_sync_phase"])
     elif agg["restarts"] < 100 or trusted < 10000:
         inconclusive = "monitors observed too little"
+    elif agg.get("answers_without_a_system_clock_read", 0) > 0:
+        inconclusive = "%d trusted answers were given without any read of a realtime clock the harness recognises: containment could not be judged for them" % agg["answers_without_a_system_clock_read"]
     coverage = {
         "evaluations": agg["evaluations"],
         "distinct_nontrivial": agg["distinct"],
